@@ -230,6 +230,44 @@ def replay_gauss(case) -> dict:
     return dict(failures=fails, classes={"gauss": 1})
 
 
+def replay_atoms(case) -> dict:
+    """from_atoms against TLC's exact histogram (coordinates in quarter pixels, so the expectation is the same at every scale)."""
+    from acryo import pipe
+
+    a4 = np.array(case["atoms4"], dtype=np.float64)
+    c4 = np.array(case["c4"], dtype=np.float64)
+    size = case["hist"]["size"]
+    fails = []
+    for scale in (0.5, 1.0, 2.0, 0.8):
+        atoms_nm = a4 / 4.0 * scale
+        centre_nm = tuple(c4 / 4.0 * scale)
+        for weighted in (False, True):
+            desc = dict(part="atoms", natoms=len(a4), centre4=case["c4"], scale=scale, weighted=weighted)
+            w = np.array(case["w"], dtype=np.float64) if weighted else None
+            got = np.asarray(engine.api(pipe.from_atoms(atoms_nm, weights=w, center=centre_nm), scale), dtype=np.float64)
+            want = np.zeros((size,) * 3)
+            for b in case["hist"]["bins"]:
+                want[tuple(b["k"])] = b["w"]
+            if not weighted:   # unweighted: the number of atoms per bin
+                want = np.zeros((size,) * 3)
+                for row in a4:
+                    k = tuple(int(np.floor((row[ax] - c4[ax]) / 4.0 + size / 2.0)) for ax in range(3))
+                    want[k] += 1
+                # the bins themselves are TLC's: the unweighted occupancy must have the same support
+                if {tuple(b["k"]) for b in case["hist"]["bins"]} != {tuple(int(x) for x in i) for i in np.argwhere(want > 0)}:
+                    raise RuntimeError("harness transcription of AtomBin differs from TLC")
+            if got.shape != want.shape:
+                fails.append(dict(desc, clause="AtomsBoxSize", observed=list(got.shape), expected=[size] * 3))
+            elif float(np.max(np.abs(got - want))) > 1e-6:
+                fails.append(dict(desc, clause="AtomsHistogram", nbad=int(np.sum(np.abs(got - want) > 1e-6))))
+        # the default centre is the mean of the atoms: the same image as passing that mean explicitly
+        d0 = np.asarray(pipe.from_atoms(atoms_nm)(scale))
+        d1 = np.asarray(pipe.from_atoms(atoms_nm, center=tuple(atoms_nm.mean(axis=0)))(scale))
+        if d0.shape != d1.shape or not np.array_equal(d0, d1):
+            fails.append(dict(part="atoms", natoms=len(a4), scale=scale, clause="DefaultCentreIsMean"))
+    return dict(failures=fails, classes={"atoms": 1})
+
+
 def _gauss_cases(table) -> list[dict]:
     by = {}
     for a in sorted(table["axes"], key=lambda a: (a["scale10"], a["shift10"], a["shape10"])):
@@ -247,6 +285,8 @@ def _gauss_cases(table) -> list[dict]:
 def replay(case) -> dict:
     if case["kind"] == "gauss":
         return replay_gauss(case)
+    if case["kind"] == "atoms1":
+        return replay_atoms(case)
     return replay_units(case) if case["kind"] == "units" else replay_prog(case)
 
 
@@ -255,13 +295,17 @@ def run(rep: engine.Report, tier: str, seed: int):
     cases = mc.emitted
     units = [c for c in cases if c.get("kind") == "units"]
     gtab = [c for c in cases if c.get("kind") == "gauss"]
-    progs = [c for c in cases if c.get("kind") not in ("units", "gauss")]
+    atab = [c for c in cases if c.get("kind") == "atoms"]
+    progs = [c for c in cases if c.get("kind") not in ("units", "gauss", "atoms")]
     if not progs or not units or not gtab:
         raise engine.MachineryError("MC_C19 emitted nothing")
     gauss = _gauss_cases(gtab[0])
-    allc = progs + units + gauss
+    atoms = [dict(c, kind="atoms1") for c in (atab[0]["cases"] if atab else [])]
+    if not atoms:
+        raise engine.MachineryError("MC_C19 emitted no from_atoms table")
+    allc = progs + units + gauss + atoms
     results = engine.parallel_replay("harness.props.c19", "replay", allc, chunksize=64)
-    engine.collect(rep, allc, results, key=lambda c: c if c["kind"] in ("units", "gauss") else (c["e"], c["s2"]))
+    engine.collect(rep, allc, results, key=lambda c: c if c["kind"] in ("units", "gauss", "atoms1") else (c["e"], c["s2"]))
     rep.exhaustive = True
     rep.traces_validated = len(allc)
     rep.samples = [dict(e=progs[0]["e"], s2=progs[0]["s2"], value=progs[0]["value"]), dict(e=progs[-1]["e"], value=progs[-1]["value"])]
@@ -272,7 +316,8 @@ def run(rep: engine.Report, tier: str, seed: int):
         "physical-unit case (nm->pixel radius table and ball sizes from TLC; unit covariance of 9 converters/providers for 3 factors, "
         "Gaussian provider centre/profile/shape, rescaling providers, extensivity and range of mask converters, loader normalize_input); "
         f"{len(gauss)} from_gaussian calls against TLC's exact per-axis geometry (pixel shape, rational centre) for shape/scale quotients "
-        "integral and not, shifted and not (shape, centre, profile, point symmetry when unshifted)"
+        "integral and not, shifted and not (shape, centre, profile, point symmetry when unshifted); "
+        f"{len(atoms)} point clouds x 4 scales x weighted/unweighted through from_atoms against TLC's exact histogram (quarter-pixel coordinates: box size, every bin)"
     )
 
 
